@@ -26,7 +26,7 @@ ANCHORS = [
     ("tangelo/toolboxes/qubit_mappings/statevector_mapping.py", "get_mapped_vector", "ordering conversion and dispatch"),
     ("tangelo/toolboxes/qubit_mappings/statevector_mapping.py", "vector_to_circuit", "vector -> X gates"),
 ]
-REQUIRED = {"occupation_of_mapped_vector": 5000, "reference_circuit_occupation": 1000, "x_gates_only": 500}
+REQUIRED = {"supplied_vector_unchanged": 300, "occupation_of_mapped_vector": 5000, "reference_circuit_occupation": 1000, "x_gates_only": 500}
 BUDGET = {"quick": 240, "thorough": 2400}
 EXHAUSTIVE = True
 MAPPINGS = ["JW", "BK", "SCBK", "JKMN"]
@@ -48,6 +48,9 @@ def cases(tier, seed):
             if m == "SCBK" and n < 4:
                 continue
             out.append({"sub": "reference", "n": n, "mapping": m})
+    for n in (2, 4, 6, 8):
+        for i in range(4 if tier == "quick" else 40):
+            out.append({"sub": "reuse", "n": n, "i": i})
     return out
 
 
@@ -92,7 +95,7 @@ def number_op(i, mapping, n, ne, utd, spin):
     return _numop_cache[key]
 
 
-def check_vector(ctx, vec, mapping, utd, sub, circ=None, extra=None):
+def check_vector(ctx, vec, mapping, utd, sub, circ=None, extra=None, supplied=None):
     import warnings
     from tangelo.toolboxes.qubit_mappings.statevector_mapping import get_mapped_vector, vector_to_circuit
     from tangelo.toolboxes.qubit_mappings.mapping_transform import get_qubit_number
@@ -102,7 +105,7 @@ def check_vector(ctx, vec, mapping, utd, sub, circ=None, extra=None):
     if circ is None:
         with warnings.catch_warnings():
             warnings.simplefilter("ignore")
-            mv = get_mapped_vector(np.array(vec, dtype=int), mapping, utd)
+            mv = get_mapped_vector(np.array(vec, dtype=int) if supplied is None else supplied, mapping, utd)
         circ = vector_to_circuit(mv)
     bits, only_x = circuit_bits(circ, n)
     nq = get_qubit_number(mapping, n)
@@ -159,5 +162,29 @@ def run_reference(case, ctx):
                 ctx.tab("reference_triples", f"{mapping}", 1)
 
 
+def run_reuse(case, ctx):
+    """The same user-supplied object (list, tuple or numpy array) is encoded several times under different encodings / orderings:
+    every encoding must prepare the occupations the user supplied, and the supplied object must not be modified."""
+    from vlib.harness import case_rng
+    rng, pr, s = case_rng(ctx.seed, "C05", "reuse", case["n"], case["i"])
+    n = case["n"]
+    for _ in range(12):
+        want = tuple(pr.randint(0, 1) for _ in range(n))
+        form = pr.choice(["ndarray_int", "ndarray_int", "ndarray_float", "list", "tuple"])
+        supplied = {"ndarray_int": lambda: np.array(want, dtype=int), "ndarray_float": lambda: np.array(want, dtype=float),
+                    "list": lambda: list(want), "tuple": lambda: tuple(want)}[form]()
+        seq = [(m, u) for m in MAPPINGS for u in (False, True) if not (m == "SCBK" and n < 4)]
+        pr.shuffle(seq)
+        for k, (mapping, utd) in enumerate(seq[:5]):
+            check_vector(ctx, want, mapping, utd, "occupation_of_mapped_vector", supplied=supplied,
+                         extra={"supplied_as": form, "encoding_number_on_same_object": k, "sequence": seq[:k + 1]})
+            same = tuple(int(x) for x in supplied) == want
+            ctx.check("supplied_vector_unchanged", same, "get_mapped_vector modified the occupation vector supplied by the caller",
+                      lambda: {"requested": list(want), "now": [int(x) for x in supplied], "supplied_as": form, "sequence": seq[:k + 1]})
+            if not same:
+                break
+    ctx.tab("reuse_n", str(n))
+
+
 def run_case(case, ctx):
-    {"vectors": run_vectors, "reference": run_reference}[case["sub"]](case, ctx)
+    {"vectors": run_vectors, "reference": run_reference, "reuse": run_reuse}[case["sub"]](case, ctx)
